@@ -55,6 +55,7 @@ type stopOpts struct {
 	offsets   []int // long runs: also stop next to (multiples of 2^16 [and 2^12]) - offset, for each of these offsets
 	fine      bool  // ... multiples of 2^12 as well
 	edge      int   // long runs: how many positions at the start and at the end are all tried (default 300)
+	only      []int // if set: exactly these stop positions (negative ones count from the end)
 }
 
 // stopMonitor runs the iterator uninterrupted, then stopped at every position.
@@ -120,7 +121,18 @@ func stopMonitor(k *K, name string, mk func() rawIter, o stopOpts) {
 			}
 		}
 	}
-	if len(full) > 2000 {
+	if o.only != nil {
+		stops = stops[:0]
+		for _, s := range o.only {
+			if s < 0 {
+				s += len(full)
+			}
+			if s >= 0 && s < len(full) {
+				stops = append(stops, s)
+			}
+		}
+	}
+	if len(full) > 2000 && o.only == nil {
 		chosen := map[int]bool{}
 		for _, s := range stops {
 			chosen[s] = true
@@ -1208,6 +1220,19 @@ func c18DeepStops(c *Ctx) {
 	if c.Thorough {
 		big = []int{70000, 1<<17 + 1}
 	}
+	// deeper than 2^20 levels (a chromosome-scale caterpillar; no recursion, and no "sanity" bound, survives it):
+	// stopped at a handful of positions around the 2^20-th item and at both ends
+	c.Case(idx, func(k *K) {
+		depth := 1<<20 + 5
+		root, _ := chainTree(depth, 0)
+		k.Input("tree_shape", fmt.Sprintf("chain of depth %d", depth))
+		only := []int{0, 1, 1<<20 - 2, 1<<20 - 1, 1 << 20, 1<<20 + 1, -2, -1}
+		stopMonitor(k, "Node.PreOrder", func() rawIter { return raw1(root.PreOrder(), nodeKey) }, stopOpts{limit: 1 << 21, only: only})
+		stopMonitor(k, "Node.PostOrder", func() rawIter { return raw1(root.PostOrder(), nodeKey) }, stopOpts{limit: 1 << 21, only: only})
+		k.Count("deep_trees_stopped", 1)
+		k.Nontrivial([]byte("deepstops"), []byte("beyond 2^20"))
+	})
+	idx++
 	for _, d := range big {
 		run(fmt.Sprintf("left comb of depth %d", d), func(*rand.Rand) *newick.Node { return combTree(d, 1, 0) })
 		run(fmt.Sprintf("two arms of %d nodes from the root", d), func(*rand.Rand) *newick.Node { t, _ := armsTree(1, 2, d); return t })
